@@ -155,6 +155,9 @@ type frame struct {
 }
 
 type Exec struct {
+	wrapLabel   string // non-empty between vWrapBegin and vWrapEnd: unsigned + and * must not wrap
+	wrapBounded int    // ... of which this many were excluded by term bounds alone
+	wrapWide    map[string]uint64
 	Sh          *Shared
 	S           *sym.Solver
 	pc          []*sym.Term
@@ -593,9 +596,25 @@ func (e *Exec) check(c *sym.Term, label string) {
 		e.res.Checks = append(e.res.Checks, rec)
 		return
 	}
+	neg := sym.Not(c)
+	inWrap := e.wrapLabel != "" && label == e.wrapLabel
+	if inWrap {
+		// a wrap-around obligation that the term bounds could not exclude: concrete extreme candidates
+		// first (cheap), the solver only if none of them is a counterexample
+		if m2 := e.extremeCounterexample(neg); m2 != nil {
+			rec.Verdict = "violated"
+			rec.Model = e.modelFrom(m2)
+			rec.Stack = e.stackString()
+			e.res.Checks = append(e.res.Checks, rec)
+			e.wrapLabel = "" // one report per region; the rest of the path runs unchecked for wrap-around
+			if e.Sh.Cfg.StopOnFail {
+				e.end(EndStopped, "check failed: "+label)
+			}
+			return
+		}
+	}
 	e.flush()
 	e.res.Queries++
-	neg := sym.Not(c)
 	if e.Sh.KeepScript {
 		rec.Script = sym.Script(append(append([]*sym.Term{}, e.pc...), neg))
 	}
@@ -610,6 +629,16 @@ func (e *Exec) check(c *sym.Term, label string) {
 		atomic.AddInt64(&OneShots, 1)
 		// the incremental core gave up: re-ask a fresh one-shot solver (different tactic pipeline)
 		r, m = e.oneShot(neg)
+	}
+	if r == sym.Unknown {
+		// last resort for a counterexample: evaluate the negated assertion under extreme concrete
+		// candidates (every symbolic byte 0xFF or 0x00 - sums and products peak there - and every wider
+		// variable at the largest value the path condition allows). A candidate that satisfies the path
+		// condition and falsifies the assertion is a real counterexample (replayed natively like any
+		// other); finding none proves nothing and the verdict stays unknown.
+		if m2 := e.extremeCounterexample(neg); m2 != nil {
+			r, m = sym.Sat, m2
+		}
 	}
 	switch r {
 	case sym.Unsat:
@@ -640,6 +669,66 @@ func (e *Exec) check(c *sym.Term, label string) {
 
 // oneShot decides pc ∧ extra with a fresh z3 process and, when sat, obtains the
 // model of the nondet variables from it.
+func (e *Exec) extremeCounterexample(neg *sym.Term) map[string]uint64 {
+	wide := e.wrapWide
+	if wide == nil {
+		wide = map[string]uint64{}
+	}
+	for _, v := range e.nondets {
+		if v.W <= 8 || v.W > 64 {
+			continue
+		}
+		if _, done := wide[v.Name]; done {
+			continue
+		}
+		// largest feasible value of v under the path condition, bit by bit (small queries)
+		val := uint64(0)
+		for bit := v.W - 1; bit >= 0; bit-- {
+			try := val | uint64(1)<<uint(bit)
+			// one-shot: the long-lived solver may just have been restarted after a timeout
+			if r, _ := e.oneShotT(sym.UGE(v, sym.BV(try, v.W)), 5000); r == sym.Sat {
+				val = try
+			}
+		}
+		wide[v.Name] = val
+	}
+	if e.wrapLabel != "" {
+		e.wrapWide = wide // the path condition does not change inside a wrap region unless a check fails
+	}
+	for _, pin := range []uint64{0xFF, 0} {
+		m := map[string]uint64{}
+		for _, v := range e.nondets {
+			if v.W <= 8 {
+				m[v.Name] = pin & (uint64(1)<<uint(v.W) - 1)
+			} else {
+				m[v.Name] = wide[v.Name]
+			}
+		}
+		memo := map[*sym.Term]uint64{}
+		ok := true
+		for _, c := range e.pc {
+			if v, evalOK := sym.Eval(c, m, memo); !evalOK || v != 1 {
+				if os.Getenv("VERIF_DEBUG") != "" {
+					fmt.Fprintf(os.Stderr, "extreme candidate pin=%#x wide=%v: path condition term false (evalOK=%v): %s\n", pin, wide, evalOK, c.String())
+				}
+				ok = false
+				break
+			}
+		}
+		if !ok {
+			continue
+		}
+		v, evalOK := sym.Eval(neg, m, memo)
+		if os.Getenv("VERIF_DEBUG") != "" {
+			fmt.Fprintf(os.Stderr, "extreme candidate pin=%#x wide=%v: pc ok, neg=%d evalOK=%v\n", pin, wide, v, evalOK)
+		}
+		if evalOK && v == 1 {
+			return m
+		}
+	}
+	return nil
+}
+
 func (e *Exec) oneShot(extra *sym.Term) (sym.Result, map[string]uint64) {
 	return e.oneShotT(extra, e.Sh.Cfg.CheckTimeout)
 }
